@@ -36,8 +36,8 @@ def run(cx):
 def r1(cx):
     ast = cx.ast
     n = 0
-    for f in ast.file(GEN)["_fns"]:
-        ordn = {}
+    ordn = {}
+    for f in sorted(ast.file(GEN)["_fns"], key=lambda f: f.line):
         for e in f.events:
             sink = None; arg = None
             if e["k"] == "call" and e["text"] in ("syn::parse_str", "Ident::new", "TokenStream::from_str", "Ident::new_raw", "syn::parse_str::<Ident>"):
@@ -51,8 +51,10 @@ def r1(cx):
                 # a type expression produced by to_rust_string: only Typename(v) passes IDL text through
                 cls = "typename"
             n += 1
-            k = ordn.get(sink, 0); ordn[sink] = k + 1
-            key = "gen:%s:%s#%d" % (f.qual, sink, k)
+            # the key names the sink and the expression fed to it (not the enclosing function: moving the statement keeps the key)
+            expr = re.sub(r"\s+", "", arg)[:90]
+            k = ordn.get((sink, expr), 0); ordn[(sink, expr)] = k + 1
+            key = "gen:%s:%s#%d" % (sink, expr, k)
             site = "%s:%d" % (GEN, e["line"])
             lits = [lit_str_value(t["s"]) for t in tt_walk(e.get("tokens", [])) if t["t"] == "lit" and t["s"].startswith('"')] if e["k"] == "macro" else re.findall(r'"((?:[^"\\]|\\.)*)"', arg)
             raw = any(l.startswith("r#") for l in lits if l)
@@ -102,7 +104,7 @@ def r2(cx):
                 # normalise the element the name is built from: self.name in VError::to_tokenstream and t.name in a loop over idl.errors denote the same thing
                 owner = "error" if ("VError" in f.qual or (f.name == "generate_error_code")) else ("method" if f.name == "generate_anon_struct" else ("typedef-field" if "VStruct" in f.qual else f.qual))
                 sites.append(dict(fn=f.qual, line=e["line"], fmt=lit[0] if lit else "?", owner=owner, sink=e["args"][1].replace(" ", "")))
-    cx.floor("C09.R2", "to_rust_string emission sites", len(sites), 4)
+    cx.floor("C09.R2", "to_rust_string emission sites", len(sites), 3)
     groups = {}
     for s in sites: groups.setdefault((s["owner"], s["fmt"]), []).append(s)
     # does a sink reach the output? every TokenStream here is either `ts`/`tokenstream` (the output) or a local that is interpolated into it
@@ -260,10 +262,21 @@ def r6(cx):
         for e in f.ev("let"):
             nm = re.sub(r"^mut\s+", "", e["pat"]).strip()
             if re.fullmatch(r"\w+", nm): lets.setdefault(nm, []).append(e["text"])
+            else:
+                # destructuring pattern (`let Fields { names: in_names, .. } = f(..)`, tuples): every bound name takes the initialiser
+                pat = re.sub(r"\b\w+\s*:(?!:)", " ", e["pat"])           # drop `field:` labels
+                for nm2 in re.findall(r"\b[a-z_][a-z0-9_]*\b", pat):
+                    if nm2 not in ("mut", "ref", "_"): lets.setdefault(nm2, []).append(e["text"])
+            # a call that mentions t.input / t.output (or self.parm) in its arguments produces lists of that member list
+            for nm3 in lets:
+                pass
         def classify(name, depth=0, seen=()):
             out = set()
             inits = lets.get(name, [])
             for init in inits:
+                flat = re.sub(r"\s+", "", init)
+                if re.search(r"\bt\.input\b", flat) and not re.search(r"\bt\.output\b", flat): out.add("input"); continue
+                if re.search(r"\bt\.output\b", flat) and not re.search(r"\bt\.input\b", flat): out.add("output"); continue
                 ids = set(re.findall(r"\b[a-z_][a-z0-9_]*\b", re.sub(r'"(?:[^"\\]|\\.)*"', "", init)))
                 for i2 in ids:
                     if i2 == name and i2 in root: out.add(root[i2])
